@@ -302,6 +302,14 @@ pub fn alphabet() -> Vec<Letter> {
         l("path/unknown", "/nope", FMT_JSON, b"1").err(6).rejected(),
         l("version/0+unknown-path", "/nope", FMT_JSON, b"1").err(1).rejected(),
         l("query/raw-format+unknown-path", "/nope", FMT_JSON, b"1").err(3).rejected(),
+        // two error conditions at once: the earlier stage of the pipeline (version, query, route, body) decides
+        l("version/0+query/raw-format", "/json", FMT_JSON, b"1").err(1).rejected(),
+        l("version/2+query/not-utf8", "/json", FMT_JSON, b"1").err(1).rejected(),
+        l("version/0+body/unknown-format", "/json", 9, b"1").err(1).rejected(),
+        l("query/raw-format+body/malformed", "/json", FMT_JSON, b"{").err(3).rejected(),
+        l("query/not-utf8+body/unknown-format", "/json", 9, b"1").err(3).rejected(),
+        l("path/unknown+body/malformed", "/nope", FMT_JSON, b"{").err(6).rejected(),
+        l("path/unknown+body/unknown-format", "/nope", 9, b"1").err(6).rejected(),
         l("path/empty", "", FMT_JSON, b"1").err(6).rejected(),
         l("path/prefix-no-boundary", "/jsonx", FMT_JSON, b"1").err(6).rejected(),
         l("typed/ok", "/typed", FMT_JSON, br#"{"a":21}"#).ok("typed", json!({"twice": 42})),
@@ -335,6 +343,17 @@ pub fn alphabet() -> Vec<Letter> {
             "version/0" | "version/0+unknown-path" => x.version = 0,
             "query/raw-format+unknown-path" => x.qf = 0,
             "version/2" => x.version = 2,
+            "version/0+query/raw-format" => {
+                x.version = 0;
+                x.qf = 0;
+            }
+            "version/2+query/not-utf8" => {
+                x.version = 2;
+                x.path = vec![b'/', 0xff, 0xfe];
+            }
+            "version/0+body/unknown-format" => x.version = 0,
+            "query/raw-format+body/malformed" => x.qf = 0,
+            "query/not-utf8+body/unknown-format" => x.path = vec![b'/', 0xff, 0xfe],
             "query/raw-format" => x.qf = 0,
             "query/unknown-format" => x.qf = 7,
             "query/not-utf8" => x.path = vec![b'/', 0xff, 0xfe],
